@@ -89,6 +89,7 @@ pub fn gen_cfg(t: &mut Tape, profile: Profile) -> RunCfg {
         p_ping_flush_cancel: 0,
         twin_same_timing: false,
         twin_poll_budget_us: 0,
+        twin_receive_max: 0,
         zero_time_io: false,
         p_withhold_ack: [0, 50, 200, 500][t.choose(4) as usize],
         p_fail_reason: [0, 0, 50, 200][t.choose(4) as usize],
@@ -529,7 +530,7 @@ pub fn run_connection(conn: &mut Conn<'_, '_>, steps_left: &mut u32) -> ConnEnd 
                     let c = &w.conns[w.cur];
                     c.max_packet_size.is_some_and(|m| m < 6) && (!c.owed_acks.is_empty() || !c.carry_acks.is_empty())
                 });
-                let ok = matches!(r, Res::PacketTooLarge) && (matches!(step, Step::Poll | Step::Recv | Step::Drive | Step::Invalid) || ack_pending) || matches!(step, Step::Disconnect);
+                let ok = matches!(r, Res::PacketTooLarge) && (matches!(step, Step::Poll | Step::Recv | Step::Drive | Step::Invalid) || ack_pending) || matches!(step, Step::Disconnect) || with(|w| w.op_label == "disconnect");
                 if !ok {
                     with(|w| {
                         w.violate(
